@@ -83,6 +83,41 @@ func EncodeXML(w xmlstream.TokenWriter, v interface{}) error {
 	return nil
 }
 
+// outerWriter replaces every outermost start element written to it (and the
+// end element that closes it) by start. The attributes of start come first,
+// followed by the attributes of the element being replaced; a name space
+// declaration of the replaced element is dropped since it describes the name
+// that is being replaced.
+type outerWriter struct {
+	w     xmlstream.TokenWriter
+	start xml.StartElement
+	depth int
+}
+
+func (ow *outerWriter) EncodeToken(t xml.Token) error {
+	switch tok := t.(type) {
+	case xml.StartElement:
+		if ow.depth == 0 {
+			attrs := make([]xml.Attr, 0, len(ow.start.Attr)+len(tok.Attr))
+			attrs = append(attrs, ow.start.Attr...)
+			for _, attr := range tok.Attr {
+				if attr.Name.Space == "" && attr.Name.Local == "xmlns" {
+					continue
+				}
+				attrs = append(attrs, attr)
+			}
+			t = xml.StartElement{Name: ow.start.Name, Attr: attrs}
+		}
+		ow.depth++
+	case xml.EndElement:
+		ow.depth--
+		if ow.depth == 0 {
+			t = ow.start.End()
+		}
+	}
+	return ow.w.EncodeToken(t)
+}
+
 // EncodeXMLElement writes the XML encoding of v to the stream, using start as
 // the outermost tag in the encoding.
 //
@@ -92,15 +127,16 @@ func EncodeXML(w xmlstream.TokenWriter, v interface{}) error {
 // If the stream is an xmlstream.Flusher, EncodeXMLElement calls Flush before
 // returning.
 func EncodeXMLElement(w xmlstream.TokenWriter, v interface{}, start xml.StartElement) error {
+	ow := &outerWriter{w: w, start: start}
 	if wt, ok := v.(xmlstream.WriterTo); ok {
-		_, err := wt.WriteXML(w)
+		_, err := wt.WriteXML(ow)
 		return err
 	}
 	d, err := tokenDecoder(v)
 	if err != nil {
 		return err
 	}
-	_, err = xmlstream.Copy(w, rawTokenReader{Decoder: d})
+	_, err = xmlstream.Copy(ow, rawTokenReader{Decoder: d})
 	if err != nil {
 		return err
 	}
